@@ -734,7 +734,7 @@ void ref_var_cb(int is_write, int cmd, int var, size_t write_size, int result)
 void ref_line_completed(void)
 {
         struct refm *r = &M->c;
-        if (WS.nsample_lines < 6 && (WS.lines_done % 5) == 1 && r->line_n < 190) {
+        if (WS.nsample_lines < 6 && (WS.lines_done % 5) == 1 && r->line_n > 0 && r->line_n < 190) {
                 int k = WS.nsample_lines++;
                 memcpy(WS.sample_line[k], I.line, r->line_n);
                 WS.sample_line[k][r->line_n] = '\n';
